@@ -646,7 +646,9 @@ def merged_family(seed, n):
             if style == "alias":
                 rrec2["aliases"] = ["a.Dot", "a.Point"]
             first_second = [rrec, rrec2] if r.random() < 0.7 else [rrec2, rrec]
-            w = {"type": "record", "name": "Top", "fields": [{"name": "p", "type": w1}, {"name": "n", "type": "long"}, {"name": "q", "type": ["null", w2]}]}
+            # the writer's side is a plain record or itself a union (two different code paths in the reader)
+            wp = r.choice([w1, w1, ["null", w1], [w1, "string"]])
+            w = {"type": "record", "name": "Top", "fields": [{"name": "p", "type": wp}, {"name": "n", "type": "long"}, {"name": "q", "type": ["null", w2]}]}
             rs = {"type": "record", "name": "Top", "fields": [{"name": "p", "type": first_second}, {"name": "n", "type": "long"},
                                                               {"name": "q", "type": ["null", "a.Point" if first_second[0] is rrec else "v2.Point"]}]}
             mk = lambda: {"p": {f["name"]: types[f["name"]][1](r) for f in w1["fields"]}, "n": r.randint(-9, 9),
